@@ -43,7 +43,7 @@ TIMEOUT = {"quick": 900, "thorough": 7200}
 MIN_CASES = {"quick": 15000, "thorough": 250000}
 REQUIRED_COUNTERS = [
     "honest_accepted", "accessory_accepted_m3", "keys_compared", "resume_accepted", "adversarial_rejected",
-    "m2_bitflips", "m4_bitflips", "exchange_keys_observed", "repair_history_steps", "unverified_peer_probes", "ble_impostor_probes", "ble_relink_impostor_probes", "ip_end_to_end_sessions", "ble_end_to_end_sessions", "coap_end_to_end_sessions",
+    "m2_bitflips", "m4_bitflips", "exchange_keys_observed", "repair_history_steps", "unverified_peer_probes", "ble_impostor_probes", "ble_relink_impostor_probes", "coap_relink_impostor_probes", "ip_end_to_end_sessions", "ble_end_to_end_sessions", "coap_end_to_end_sessions",
 ]
 
 BLE_COAP_BUILT = True
